@@ -453,6 +453,24 @@ class _Builder:
             if tt is not None and tt["t"] == "return" and not nb["cleanup"]:
                 nb["term"] = {"t": "goto", "target": cont, "span": tt.get("span")}
             raw["blocks"][boff + i] = nb
+        # captured places: `*(env.i)` where capture i of the closure value is `&mut <place>` / `&<place>` taken in this very
+        # function IS that place - rewrite it so that a store through a capture (`|()| self.dirty = false`) stays visible
+        # as the field store it is
+        caps = _capture_places(raw, clo_operand, boff)
+        if caps:
+            env = loff + 1
+            def fix(pl):
+                pr = pl["p"]
+                for pre in (["*"], []):
+                    k = len(pre)
+                    if pl["l"] == env and pr[:k] == pre and len(pr) >= k + 2 and pr[k].startswith("f:") and pr[k + 1] == "*":
+                        idx = pr[k][2:].rsplit(".", 1)[-1]
+                        if idx.isdigit() and int(idx) in caps:
+                            tgt = caps[int(idx)]
+                            return {"l": tgt["l"], "p": list(tgt["p"]) + list(pr[k + 2:])}
+                return pl
+            for i in range(len(clo_raw["blocks"])):
+                raw["blocks"][boff + i] = _rewrite_places(raw["blocks"][boff + i], fix)
         # entry: bind the environment and the arguments
         stmts = []
         if clo_operand is not None:
@@ -465,6 +483,40 @@ class _Builder:
                 stmts.append(_assign(_pl(base + i), {"rv": "use", "a": copy.deepcopy(a)}, self.span))
         entry = self.block(stmts, self.goto(boff))
         return entry, loff
+
+
+def _rewrite_places(o, fix):
+    if isinstance(o, dict):
+        if set(o.keys()) == {"l", "p"} and isinstance(o["l"], int) and isinstance(o["p"], list):
+            return fix(o)
+        return {k: _rewrite_places(v, fix) for k, v in o.items()}
+    if isinstance(o, list):
+        return [_rewrite_places(v, fix) for v in o]
+    return o
+
+
+def _capture_places(raw, clo_operand, upto):
+    """{capture index: place} for the by-reference captures of the closure value held in clo_operand's local, when that
+    local has a single definition (the closure aggregate) and the captured reference a single definition `&[mut] place`."""
+    if clo_operand is None or clo_operand.get("k") not in ("cp", "mv") or clo_operand["pl"]["p"]:
+        return {}
+    l = clo_operand["pl"]["l"]
+    defs = []
+    for blk in raw["blocks"][:upto]:
+        if blk is None:
+            continue
+        for st in blk["stmts"]:
+            if st["s"] == "assign" and st["lhs"]["l"] == l and not st["lhs"]["p"]:
+                defs.append(st)
+    if len(defs) != 1 or defs[0]["rhs"].get("rv") != "agg" or defs[0]["rhs"].get("agg") != "closure":
+        return {}
+    out = {}
+    for i, op in enumerate(defs[0]["rhs"].get("ops", [])):
+        if op.get("k") in ("cp", "mv") and not op["pl"]["p"]:
+            src = _single_ref_def(raw, op["pl"]["l"], upto)
+            if src is not None:
+                out[i] = src
+    return out
 
 
 def _closure_of_operand(prog, fn, op, at):
